@@ -3,7 +3,13 @@ import fcntl, os, re, subprocess, sys, time
 
 ROOT = os.path.dirname(os.path.dirname(os.path.abspath(__file__)))
 LEAN = os.path.join(ROOT, "lean")
-EXE = os.path.join(LEAN, ".lake", "build", "bin", "mouette_model")
+def exe_path(pid):
+    return os.path.join(LEAN, ".lake", "build", "bin", f"model_{pid.lower()}")
+
+
+def exe_target(pid):
+    return f"model_{pid.lower()}"
+
 ALLOWED_AXIOMS = {"propext", "Classical.choice", "Quot.sound"}
 FORBIDDEN = re.compile(r"\bsorry\b|\badmit\b|^\s*axiom\s|native_decide|bv_decide|implemented_by|\bunsafe\s|maxHeartbeats\s+0")
 
@@ -100,15 +106,15 @@ def audit(modules, timeout=1800):
     return p.returncode == 0, thms, p.stdout
 
 
-def run_driver(lines, timeout=1800):
-    """Send request lines to the compiled model driver; returns reply lines."""
+def run_driver(pid, lines, timeout=1800):
+    """Send request lines (tokens after the property prefix) to the property's compiled model driver."""
     if not lines:
         return []
     data = "\n".join(lines) + "\n"
-    if os.path.exists(EXE):
-        cmd = [EXE]
+    if os.path.exists(exe_path(pid)):
+        cmd = [exe_path(pid)]
     else:
-        cmd = ["lake", "env", "lean", "--run", "Driver/Main.lean"]
+        cmd = ["lake", "env", "lean", "--run", f"Driver/Main{pid}.lean"]
     p = subprocess.run(cmd, cwd=LEAN, input=data, stdout=subprocess.PIPE, stderr=subprocess.PIPE,
                        text=True, timeout=timeout)
     out = p.stdout.split("\n")
